@@ -213,7 +213,7 @@ func genCacheFile(r *Rng, now int64, n int, mix bool) []fileEntry {
 		case 2:
 			e.addr = ""
 		}
-		seen := now - []int64{0, 100, 3700, 90000, 200000, 700000, 5000000}[r.Intn(7)] - int64(r.Intn(50))
+		seen := now - []int64{0, 100, 3700, 90000, 200000, 700000, 5000000}[r.Intn(7)] - int64(r.Intn(50)) - int64(len(es))*60 // distinct
 		switch r.Intn(14) {
 		case 0:
 			e.seenJSON, e.seenCoq = "1.5", "None"
@@ -286,6 +286,43 @@ func strsCoq(l []string) string {
 		it[i] = strCoq(a)
 	}
 	return in.Ref("A_", "list str", List(it))
+}
+
+// genPeerListText builds the text of a custom peers file / a downloaded peer list:
+// lines from the catalogue, comments, blank lines, padding, CRLF endings
+func genPeerListText(r *Rng, n int, allow bool, onlyValid bool) string {
+	var lines []string
+	for len(lines) < n {
+		a := cacheCatalogue[r.Intn(len(cacheCatalogue))]
+		if r.Chance(60) {
+			a = cacheCatalogue[r.Intn(10)]
+		}
+		if onlyValid {
+			if _, err := pex.VerifC26ValidateAddress(a, allow); err != nil {
+				continue
+			}
+		}
+		switch r.Intn(10) {
+		case 0:
+			a = "  " + a + "\t"
+		case 1:
+			a = a + "\r"
+		}
+		lines = append(lines, a)
+		switch r.Intn(8) {
+		case 0:
+			lines = append(lines, "# "+a)
+		case 1:
+			lines = append(lines, "")
+		case 2:
+			lines = append(lines, "   ")
+		}
+	}
+	t := strings.Join(lines, "\n")
+	if r.Bool() {
+		t += "\n"
+	}
+	return t
 }
 
 // a scripted operation: k selects the branch of the operation switch
@@ -527,25 +564,58 @@ func run(args []string) error {
 				return derr
 			}
 		}
-		if max == 0 && r.Chance(35) { // default (trusted) connections; never with a bound, so New cannot hit a full list
-			cfg.DefaultConnections = []string{pool[3], pool[r.Intn(5)]}[:1+r.Intn(2)]
+		// default (trusted) connections: with a bound only when the cache file cannot be cut
+		// (which peers a cut kept is not observable once New evicted some of them)
+		if (max == 0 || len(entries) <= max) && r.Chance(35) {
+			cfg.DefaultConnections = []string{pool[3], pool[r.Intn(5)], pool[9+r.Intn(3)]}[:1+r.Intn(3)]
+		}
+		customCoq, customDesc := "None", ""
+		if (startOnly || scenario == "random") && r.Chance(40) {
+			n := r.Intn(7)
+			if max > 0 && r.Chance(50) {
+				n = max - 1 + r.Intn(4)
+			}
+			text := genPeerListText(r, n, allow, !r.Chance(15))
+			cfg.CustomPeersFile = filepath.Join(dir, "custom-peers.txt")
+			if derr = os.WriteFile(cfg.CustomPeersFile, []byte(text), 0600); derr != nil {
+				return derr
+			}
+			customCoq, customDesc = Some(strCoq(text)), fmt.Sprintf(" CustomPeersFile=%q", text)
 		}
 		tStart := time.Now().Unix()
 		px, nerr := pex.New(cfg)
-		if nerr != nil || time.Now().Unix() != tStart {
+		if time.Now().Unix() != tStart || (nerr != nil && max > 0 && len(entries) > max) {
 			hist.Add(fmt.Sprintf("seq:start-discarded:err=%v", nerr != nil))
 			os.RemoveAll(dir)
 			continue
 		}
+		if nerr != nil { // New refuses to start: the model must refuse too
+			var ks []string
+			for _, e := range entries {
+				if c, err := pex.VerifC26ValidateAddress(e.key, true); err == nil {
+					ks = append(ks, c)
+				}
+			}
+			desc := fmt.Sprintf("pex.New(Max=%d AllowLocalhost=%v DisableTrustedPeers=%v DefaultConnections=%q%s) on %s %s", max, allow, cfg.DisableTrustedPeers, cfg.DefaultConnections, customDesc, fileKind, strings.TrimSpace(strings.ReplaceAll(cacheJSON(entries), "\n", " ")))
+			starts = append(starts, Tuple(fmt.Sprint(max), B(allow), B(cfg.DisableTrustedPeers), entriesCoq(entries), strsCoq(ks), strsCoq(cfg.DefaultConnections), customCoq, zref(tStart), "None"))
+			caseJSON["start"] = append(caseJSON["start"], map[string]interface{}{"start": desc, "loaded": "(New failed: " + nerr.Error() + ")"})
+			hist.Add("start:New-failed")
+			o.Count("start|"+desc, true)
+			os.RemoveAll(dir)
+			if startOnly {
+				seqDone++
+			}
+			continue
+		}
 		init := px.VerifC26Dump()
-		startDesc := fmt.Sprintf("pex.New(Max=%d AllowLocalhost=%v DisableTrustedPeers=%v DefaultConnections=%q) on %s %s", max, allow, cfg.DisableTrustedPeers, cfg.DefaultConnections, fileKind, strings.TrimSpace(strings.ReplaceAll(cacheJSON(entries), "\n", " ")))
-		starts = append(starts, Tuple(fmt.Sprint(max), B(allow), B(cfg.DisableTrustedPeers), entriesCoq(entries), keysCoq(init), strsCoq(cfg.DefaultConnections), zref(tStart), dumpCoq(init)))
+		startDesc := fmt.Sprintf("pex.New(Max=%d AllowLocalhost=%v DisableTrustedPeers=%v DefaultConnections=%q%s) on %s %s", max, allow, cfg.DisableTrustedPeers, cfg.DefaultConnections, customDesc, fileKind, strings.TrimSpace(strings.ReplaceAll(cacheJSON(entries), "\n", " ")))
+		starts = append(starts, Tuple(fmt.Sprint(max), B(allow), B(cfg.DisableTrustedPeers), entriesCoq(entries), keysCoq(init), strsCoq(cfg.DefaultConnections), customCoq, zref(tStart), Some(dumpCoq(init))))
 		var initAddrs []string
 		for _, p := range init {
 			initAddrs = append(initAddrs, p.Addr)
 		}
 		caseJSON["start"] = append(caseJSON["start"], map[string]interface{}{"start": startDesc, "loaded": strings.Join(initAddrs, " ")})
-		hist.Add(fmt.Sprintf("start:file=%s:entries=%d:loaded=%d:max=%d", fileKind, len(entries), len(init), max))
+		hist.Add(fmt.Sprintf("start:file=%s:entries=%d:loaded=%d:max=%d:defaults=%d:custom=%v", fileKind, len(entries), len(init), max, len(cfg.DefaultConnections), customCoq != "None"))
 		o.Count("start|"+startDesc, true)
 		var steps []string
 		var trace []string
@@ -729,6 +799,35 @@ func run(args []string) error {
 				px.VerifC26SetAllUntrusted()
 				opS, outS, kind = "SetAllUntrusted", "ONone", "setAllUntrusted()"
 				hist.Add("op:setAllUntrusted")
+			case k == 23 && forced == nil: // the downloaded peer list is consumed
+				text := genPeerListText(r, r.Intn(8), allow, r.Chance(40))
+				nvalid := 0
+				for _, ln := range strings.Split(text, "\n") {
+					ln = strings.Join(strings.FieldsFunc(ln, func(c rune) bool { return c == ' ' || c == '\t' || c == '\r' || c == '\f' || c == '\n' }), "")
+					if ln == "" {
+						continue
+					}
+					if _, err := pex.VerifC26ValidateAddress(ln, false); err == nil {
+						nvalid++
+					}
+				}
+				seed := int64(r.U64() >> 1)
+				rand.Seed(seed) //nolint:staticcheck
+				cnt := px.VerifC26AddDownloaded(text)
+				rand.Seed(seed) //nolint:staticcheck
+				idx := make([]int, nvalid)
+				for i := range idx {
+					idx[i] = i
+				}
+				rand.Shuffle(nvalid, func(i, j int) { idx[i], idx[j] = idx[j], idx[i] })
+				ps := make([]string, nvalid)
+				for i, x := range idx {
+					ps[i] = fmt.Sprintf("%d%%nat", x)
+				}
+				opS = fmt.Sprintf("Download %s %s %s", strCoq(text), in.Ref("N_", "list nat", List(ps)), zref(t0))
+				outS, kind = fmt.Sprintf("OCount %d", cnt), fmt.Sprintf("downloaded(%q)=%d", text, cnt)
+				isX = true
+				hist.Add(fmt.Sprintf("op:downloaded:valid=%d:added=%d", nvalid, cnt))
 			case k == 24 && forced == nil: // save(), then a new Pex on the same data directory
 				if len(cfg.DefaultConnections) > 0 && max != 0 {
 					continue
@@ -741,7 +840,7 @@ func run(args []string) error {
 					return fmt.Errorf("c26: pex.New after save failed: %v", err)
 				}
 				px = px2
-				opS = fmt.Sprintf("Restart %s %s %s %s", keysCoq(px.VerifC26Dump()), strsCoq(cfg.DefaultConnections), B(cfg.DisableTrustedPeers), zref(t0))
+				opS = fmt.Sprintf("Restart %s %s %s %s %s", keysCoq(px.VerifC26Dump()), strsCoq(cfg.DefaultConnections), B(cfg.DisableTrustedPeers), customCoq, zref(t0))
 				outS, kind = "ONone", "save();restart"
 				isX = true
 				hist.Add("op:save+restart")
@@ -786,10 +885,10 @@ func run(args []string) error {
 		}
 		hist.Add(fmt.Sprintf("seq:max=%d", max))
 	}
-	o.Def("cases_start", "Z * bool * bool * list fentry * list str * list str * Z * pl", starts)
+	o.Def("cases_start", "Z * bool * bool * list fentry * list str * list str * option str * Z * option pl", starts)
 	o.Def("cases_ops", "Z * bool * pl * list (xop * out * pl)", ops)
 
-	o.Side["rule"] = fmt.Sprintf("validateAddress on %d adversarial strings x allowLocalhost {false,true} (IPv6, leading zeros, unicode digits / spaces, several colons, port boundaries 0/1023/1024/65535/65536, signs, hex, localhost, octet and classification boundaries, NUL / invalid UTF-8) + %d generated strings (structured from boundary pools, classification boundaries, whitespace injection, one-byte mutations, random bytes); %d peer-list operation sequences (Max in {0,1,3,5}, time passing via LastSeen, rand.Shuffle replayed through rand.Seed), peer list dumped after every operation; every sequence starts a real pex.New on its own data directory (plus start-only cases cycling AllowLocalhost x Max {0,1,3,5} on files that always hold a loopback, a public and a private address), 3 of 4 unscripted ones on a generated peers.json / legacy peers.txt / empty peers.json + peers.txt (0..8 or Max..Max+3 members from a catalogue of valid, loopback, private, multicast / unspecified / broadcast, port 0/80/1023/65536, malformed, IPv6 and whitespace-padded addresses; Addr equal / different / empty; LastSeen integer, RFC3339, float, null, bool, text, overflow, fresh to two months old; trusted / incoming flags, legacy HasIncomePort, repeated member names), with DisableTrustedPeers and (unbounded lists only) DefaultConnections, and save() + pex.New restarts happen in the middle of sequences; about half start with a scripted scenario around a threshold constant - 9..12 IncreaseRetryTimes (MaxPeerRetryTimes 10 -1/0/+1/+2) on a trusted and an untrusted peer, both aged to expiration -10/+10/+1000 s, then clearOld (the first 8 sequences walk this systematically); a full list aged around the one-day eviction age 86400 -10/+10/+-1000 s with some peers trusted, then AddPeer; a list filled to Max-2..Max then AddPeers; peers aged around each clearOld period - and then continue randomly. Non-trivial = validateAddress reached a check beyond the syntactic ones, or any list operation; distinct by input / (list, operation)", len(adversarial), nval, seqDone)
+	o.Side["rule"] = fmt.Sprintf("validateAddress on %d adversarial strings x allowLocalhost {false,true} (IPv6, leading zeros, unicode digits / spaces, several colons, port boundaries 0/1023/1024/65535/65536, signs, hex, localhost, octet and classification boundaries, NUL / invalid UTF-8) + %d generated strings (structured from boundary pools, classification boundaries, whitespace injection, one-byte mutations, random bytes); %d peer-list operation sequences (Max in {0,1,3,5}, time passing via LastSeen, rand.Shuffle replayed through rand.Seed), peer list dumped after every operation; every sequence starts a real pex.New on its own data directory (plus start-only cases cycling AllowLocalhost x Max {0,1,3,5} on files that always hold a loopback, a public and a private address), 3 of 4 unscripted ones on a generated peers.json / legacy peers.txt / empty peers.json + peers.txt (0..8 or Max..Max+3 members from a catalogue of valid, loopback, private, multicast / unspecified / broadcast, port 0/80/1023/65536, malformed, IPv6 and whitespace-padded addresses; Addr equal / different / empty; LastSeen integer, RFC3339, float, null, bool, text, overflow, fresh to two months old; trusted / incoming flags, legacy HasIncomePort, repeated member names), with DisableTrustedPeers, DefaultConnections (also with Max > 0 when the file cannot be cut; a New that refuses to start is compared too) and a CustomPeersFile (0..6 or Max-1..Max+2 address lines, comments, blanks, padding, CR; 15% with invalid lines), downloaded peer list texts are consumed (parseRemotePeerList + AddPeers) in the middle of sequences, and save() + pex.New restarts happen in the middle of sequences; about half start with a scripted scenario around a threshold constant - 9..12 IncreaseRetryTimes (MaxPeerRetryTimes 10 -1/0/+1/+2) on a trusted and an untrusted peer, both aged to expiration -10/+10/+1000 s, then clearOld (the first 8 sequences walk this systematically); a full list aged around the one-day eviction age 86400 -10/+10/+-1000 s with some peers trusted, then AddPeer; a list filled to Max-2..Max then AddPeers; peers aged around each clearOld period - and then continue randomly. Non-trivial = validateAddress reached a check beyond the syntactic ones, or any list operation; distinct by input / (list, operation)", len(adversarial), nval, seqDone)
 	o.Side["distribution"] = hist.Sorted()
 	o.Side["samples"] = samples
 	o.Side["cases"] = caseJSON
